@@ -53,7 +53,7 @@ PROPS = {
     "C13": dict(suites=[("hist", 60, 4, 1500, 16), ("fromstr", 1, 1, 4, 4), ("cells", 1, 16, 2, 16), ("regs", 1, 4, 2, 8)], corr=["constraint", "insert", "search"], oracles=["C13", "C02", "C03"]),
     "C14": dict(suites=[("parse", 5, 4, 7, 16), ("parsefocus", 7, 4, 9, 16), ("regs", 1, 4, 2, 8)], corr=["parse", "render-template"], oracles=["C14"]),
     "C15": dict(suites=[("ascii", 100, 4, 1500, 16), ("splitopt", 1, 4, 2, 16), ("prio", 1, 4, 2, 8), ("hist", 60, 4, 1500, 16), ("kin", 40, 4, 1000, 16)], corr=["display", "dump"], oracles=["C15"]),
-    "C16": dict(suites=[("family", 100, 4, 1500, 16), ("clonescope", 1, 4, 2, 16), ("clonerank", 1, 8, 2, 16), ("dupsib", 1, 4, 2, 8), ("kinfamily", 40, 4, 1000, 16)], corr=["insert", "delete", "search", "display", "clone", "dump", "stored"], oracles=["FUN", "C09", "C08", "C03"]),
+    "C16": dict(suites=[("family", 100, 4, 1500, 16), ("clonescope", 1, 4, 2, 16), ("clonerank", 1, 8, 2, 16), ("dupsib", 1, 4, 2, 8), ("kinfamily", 40, 4, 1000, 16), ("regs", 1, 4, 2, 8)], corr=["insert", "delete", "search", "display", "clone", "dump", "stored"], oracles=["FUN", "C09", "C08", "C03"]),
     "C17": dict(suites=[("oci", 4, 8, 5, 16)], corr=["search", "nameck"], oracles=["C17"]),
     "C18": dict(suites=[("threads", 30, 2, 600, 8), ("sibs", 1, 4, 3, 16)], corr=["search", "display"], oracles=["C18", "FUN"]),
     "C19": dict(suites=[("hist", 100, 4, 1500, 16), ("pairs", 1, 4, 2, 16), ("regs", 1, 4, 2, 8), ("kin", 40, 4, 1000, 16)], corr=["insert", "delete", "constraint", "render"], oracles=["C19", "C08", "C09"]),
